@@ -1,1 +1,937 @@
-fn main() { println!("MACHINERY-ERROR check not built yet"); std::process::exit(2); }
+//! C18 — PCA returns the leading orthonormal principal axes with their true variances.
+//!
+//! Bounded exhaustive sweep (DESIGN.md §4 C18): every matrix of a finite catalogue (rank-1 integer
+//! lattices, exactly isotropic cross-polytopes, axis scales 1:10:100, rotated, low-rank + constant
+//! jitter, offset 1e3, per-column scales 1e-3 / 1e3) x every embedding size 1..p x whitening off/on,
+//! plus the error sizes 0 and p+1 and empty data, is fitted with the REAL `Pca` and compared with a
+//! plain-f64 cyclic Jacobi eigen-decomposition of the sample covariance (divisor n-1).
+
+use linfa::traits::{Fit, Predict, Transformer};
+use linfa::Dataset;
+use linfa_reduction::Pca;
+use lvmc_core::enumerate as en;
+use lvmc_core::refmath::{self as rm, Mat};
+use lvmc_core::{guarded, json, par_sweep, Ctx, Level, Value, Violation};
+use ndarray::Array2;
+use serde::{Deserialize, Serialize};
+use std::sync::atomic::{AtomicU64, Ordering};
+
+/// Accuracy demanded from everything that goes through the iterative solver (LOBPCG).
+const TOL: f64 = 1e-6;
+/// Accuracy demanded where the harness only recomputes a formula from the model's own numbers.
+const TOL_INTERNAL: f64 = 1e-9;
+/// Relative spectral gap (difference of neighbouring eigenvalues / lambda_1) from which on two
+/// eigenvalues count as separated (axes compared one by one); closer ones form a degenerate block
+/// (projectors compared).
+const GAP: f64 = 1e-3;
+/// linfa-linalg `TruncatedSvd`: precision 1e-5, squared = absolute residual tolerance of the
+/// eigenproblem of the centred Gram matrix X^T X.
+const SOLVER_RES_TOL: f64 = 1e-10;
+/// linfa-linalg drops eigenvalues <= f64::EPSILON * 1e6 * lambda_max as "null space".
+const SOLVER_CUTOFF: f64 = 2.220446049250313e-16 * 1.0e6;
+/// Domain predicate: the k-th eigenvalue must be at least 100 x that cut-off relative to the first.
+const DOMAIN_RATIO: f64 = 100.0 * SOLVER_CUTOFF;
+
+#[derive(Clone, Debug, Serialize, Deserialize)]
+struct Case {
+    /// "fit" | "err_k0" | "err_kp1" | "err_empty"
+    kind: String,
+    family: String,
+    variant: usize,
+    n: usize,
+    p: usize,
+    /// the record matrix, row major, literal numbers (for reading)
+    x: Vec<Vec<f64>>,
+    /// the same numbers as IEEE-754 bit patterns: what a replay actually uses (serde_json's default
+    /// float parser may be 1 ulp off, and unconverged solver output is sensitive to that)
+    #[serde(default)]
+    x_bits: Vec<Vec<u64>>,
+    k: usize,
+    whiten: bool,
+}
+
+#[derive(Default, Clone, Debug)]
+struct Stats {
+    nontrivial: bool,
+    out_of_domain: bool,
+    error_case: bool,
+    solver_violation: bool,
+    single_axes_checked: u64,
+    degenerate_blocks_checked: u64,
+    straddling_blocks_skipped: u64,
+    widened: u64,
+    needed_widening: u64,
+    full_rank_identity_checked: u64,
+    projection_checked: u64,
+    max_orth: f64,
+    max_align: f64,
+    max_align_widened_tol: f64,
+    max_var_rel: f64,
+    max_whiten: f64,
+    max_recon_rel: f64,
+    min_rel_gap_checked: f64,
+}
+
+fn to_arr(x: &Mat, p: usize) -> Array2<f64> {
+    Array2::from_shape_fn((x.len(), p), |(i, j)| x[i][j])
+}
+
+fn to_mat(a: &Array2<f64>) -> Mat {
+    a.outer_iter().map(|r| r.to_vec()).collect()
+}
+
+fn norm(v: &[f64]) -> f64 {
+    rm::dot(v, v).sqrt()
+}
+
+/// Orthogonal projector (p x p) onto the span of the given rows (modified Gram-Schmidt, twice).
+fn projector(rows: &[Vec<f64>], p: usize) -> Mat {
+    let mut q: Vec<Vec<f64>> = Vec::new();
+    for r in rows {
+        let mut v = r.clone();
+        for _ in 0..2 {
+            for b in &q {
+                let d = rm::dot(&v, b);
+                for j in 0..p {
+                    v[j] -= d * b[j];
+                }
+            }
+        }
+        let nv = norm(&v);
+        if nv > 0.0 {
+            for x in v.iter_mut() {
+                *x /= nv;
+            }
+            q.push(v);
+        }
+    }
+    let mut pr = rm::zeros(p, p);
+    for b in &q {
+        for i in 0..p {
+            for j in 0..p {
+                pr[i][j] += b[i] * b[j];
+            }
+        }
+    }
+    pr
+}
+
+fn frob_diff(a: &Mat, b: &Mat) -> f64 {
+    let mut s = 0.0;
+    for (ra, rb) in a.iter().zip(b) {
+        for (x, y) in ra.iter().zip(rb) {
+            s += (x - y) * (x - y);
+        }
+    }
+    s.sqrt()
+}
+
+fn fmt_vec(v: &[f64]) -> String {
+    let parts: Vec<String> = v.iter().map(|x| format!("{:.9e}", x)).collect();
+    format!("[{}]", parts.join(", "))
+}
+
+fn run_case(case: &Case, viols: &mut Vec<Violation>) -> Stats {
+    let mut sv: Vec<Violation> = Vec::new();
+    let mut fitted: Option<(Array2<f64>, ndarray::Array1<f64>, Vec<f64>)> = None;
+    let mut st = run_case_inner(case, viols, &mut sv, &mut fitted);
+    st.solver_violation = !sv.is_empty();
+    if !sv.is_empty() {
+        // Classification only (the verdict is already decided): did the LOBPCG call of PcaParams::fit end
+        // with an error that TruncatedSvd::decompose swallows (it then hands back an unconverged iterate)?
+        let cause = fitted.and_then(|(xa, mean, sigma)| guarded(|| solver_ending(&xa, &mean, case.k, &sigma)).ok().flatten());
+        match cause {
+            Some((sig, c)) => {
+                let sigs: Vec<String> = sv.iter().map(|v| v.sig.clone()).collect();
+                viols.push(Violation::new(sig, format!("{} [failed assertions: {}] -- cause: {}", sv[0].what, sigs.join(", "), c), serde_json::to_value(case).unwrap()));
+            }
+            None => viols.extend(sv),
+        }
+    }
+    st
+}
+
+/// Re-runs exactly the solver call of `PcaParams::fit` (centred matrix `x - &mean`, SmallRng seed 42,
+/// f32 start block, tolerance (1e-5f32)^2, 2 n iterations, Order::Largest) through the public
+/// `linfa_linalg::lobpcg::lobpcg`, which — unlike `TruncatedSvd::decompose` — reports how it ended.
+/// Returns (signature, description) when its best iterate reproduces the model's singular values bit
+/// for bit AND it either ended with an error (which `decompose` maps to Ok) or returned Ok although a
+/// residual norm is still above the tolerance (iteration cap min(10 dim, 2 n) reached).
+fn solver_ending(xa: &Array2<f64>, mean: &ndarray::Array1<f64>, k: usize, sigma_model: &[f64]) -> Option<(&'static str, String)> {
+    use linfa_linalg::lobpcg::{lobpcg, Lobpcg};
+    use linfa_linalg::Order;
+    use rand::{rngs::SmallRng, Rng, SeedableRng};
+    let xc = xa - mean;
+    let (n, m) = (xc.nrows(), xc.ncols());
+    let mut rng = SmallRng::seed_from_u64(42);
+    let x0: Array2<f32> = Array2::from_shape_fn((n.min(m), k), |_| rng.gen::<f32>());
+    let x0 = x0.mapv(|v| v as f64);
+    let prec = 1e-5f32 * 1e-5f32;
+    let res = if n > m {
+        lobpcg(|y| xc.t().dot(&xc.dot(&y)), x0, |_| {}, None, prec, 2 * n, Order::Largest)
+    } else {
+        lobpcg(|y| xc.dot(&xc.t().dot(&y)), x0, |_| {}, None, prec, 2 * n, Order::Largest)
+    };
+    let same_sigma = |best: &Lobpcg<f64>| {
+        let mut ev: Vec<f64> = best.eigvals.to_vec();
+        ev.sort_by(|a, b| b.partial_cmp(a).unwrap());
+        let cutoff = f64::EPSILON * 1e6 * ev[0];
+        let sig: Vec<f64> = ev.iter().filter(|v| **v > cutoff).map(|v| v.sqrt().max(1e-8)).collect();
+        sig == sigma_model
+    };
+    match res {
+        Err((e, Some(best))) if same_sigma(&best) => Some((
+            "pca.fit.unconverged_axes_after_swallowed_lobpcg_error",
+            format!(
+                "lobpcg() on the centred {}x{} matrix with block size {} ended with Err({:?}) (Cholesky of a rank-deficient residual block); TruncatedSvd::decompose maps that to Ok(best iterate so far), residual norms of that iterate: {:?} (tolerance 1e-10); its singular values are bit-identical to the model's",
+                n, m, k, e, best.rnorm
+            ),
+        )),
+        Ok(best) if same_sigma(&best) && best.rnorm.iter().any(|r| !(*r <= prec as f64)) => Some((
+            "pca.fit.inaccurate_after_lobpcg_iteration_cap",
+            format!(
+                "lobpcg() on the centred {}x{} matrix with block size {} used up its iteration cap min(10 x {}, 2 x {}) and returned Ok with residual norms {:?} (tolerance 1e-10); nothing tells PcaParams::fit that the tolerance was not reached; singular values bit-identical to the model's",
+                n, m, k, n.min(m), n, best.rnorm
+            ),
+        )),
+        _ => None,
+    }
+}
+
+fn run_case_inner(case: &Case, viols: &mut Vec<Violation>, sv: &mut Vec<Violation>, fitted: &mut Option<(Array2<f64>, ndarray::Array1<f64>, Vec<f64>)>) -> Stats {
+    let mut st = Stats::default();
+    st.min_rel_gap_checked = f64::INFINITY;
+    // `sv` collects the violations of the statements that depend on the iterative solver having
+    // converged (leading eigenspace, true variances); they are classified by the caller
+    let cj = || serde_json::to_value(case).unwrap();
+    let (n, p, k) = (case.n, case.p, case.k);
+    let xa = to_arr(&case.x, p);
+    let ds = Dataset::from(xa.clone());
+    let fit = guarded(|| Pca::params(k).whiten(case.whiten).fit(&ds));
+
+    // ------------------------------------------------------------------ error menu
+    if case.kind != "fit" {
+        st.error_case = true;
+        let (accepted, panicked) = match case.kind.as_str() {
+            "err_empty" => ("pca.fit.empty_data_accepted", "pca.fit.empty_data_panic"),
+            _ => ("pca.fit.bad_embedding_size_accepted", "pca.fit.bad_embedding_size_panic"),
+        };
+        match fit {
+            Ok(Err(_)) => {}
+            Ok(Ok(m)) => viols.push(Violation::new(
+                accepted,
+                format!(
+                    "fit of a {}x{} matrix with embedding size {} ({}) returned a model with {} components instead of an error",
+                    n,
+                    p,
+                    k,
+                    case.kind,
+                    m.components().nrows()
+                ),
+                cj(),
+            )),
+            Err(msg) => viols.push(Violation::new(
+                panicked,
+                format!("fit of a {}x{} matrix with embedding size {} ({}) panicked instead of returning an error: {}", n, p, k, case.kind, msg),
+                cj(),
+            )),
+        }
+        return st;
+    }
+
+    // ------------------------------------------------------------------ oracle
+    let x = &case.x;
+    let mu = rm::col_means(x);
+    let cov = rm::covariance(x, 1.0);
+    let (lam, vecs) = rm::jacobi_eig(&cov);
+    let l1 = lam[0];
+    // trusted-base self check of the Jacobi decomposition (machinery, not a verdict)
+    for (l, v) in lam.iter().zip(&vecs) {
+        let cv = rm::matvec(&cov, v);
+        let res: f64 = (0..p).map(|j| (cv[j] - l * v[j]).powi(2)).sum::<f64>().sqrt();
+        if !(res <= 1e-12 * l1) || (norm(v) - 1.0).abs() > 1e-12 {
+            println!("MACHINERY-ERROR own Jacobi decomposition inaccurate (residual {:e}, lambda_1 {:e})", res, l1);
+            std::process::exit(2);
+        }
+    }
+    if !(lam[k - 1] / l1 >= DOMAIN_RATIO) {
+        // numerically rank deficient for the solver (documented cut-off): only "does not panic"
+        st.out_of_domain = true;
+        if let Err(msg) = fit {
+            viols.push(Violation::new("pca.fit.panic", format!("fit panicked: {}", msg), cj()));
+        }
+        return st;
+    }
+    st.nontrivial = true;
+
+    let model = match fit {
+        Ok(Ok(m)) => m,
+        Ok(Err(e)) => {
+            viols.push(Violation::new("pca.fit.unexpected_error", format!("fit of a valid {}x{} matrix with embedding size {} returned Err({})", n, p, k, e), cj()));
+            return st;
+        }
+        Err(msg) => {
+            // linfa-linalg's sort_eig: `partial_cmp(..).expect("NaN values in array")` inside lobpcg's Rayleigh-Ritz step
+            let sig = if msg == "NaN values in array" && k > 1 && k < p { "pca.fit.panic_nan_eigenvalues_inside_lobpcg" } else { "pca.fit.panic" };
+            viols.push(Violation::new(sig, format!("fit of a valid {}x{} matrix with embedding size {} panicked: {}", n, p, k, msg), cj()));
+            return st;
+        }
+    };
+
+    // ------------------------------------------------------------------ shapes
+    let comp = to_mat(model.components());
+    let sigma = model.singular_values().to_vec();
+    let mean = model.mean().to_vec();
+    let kk = comp.len();
+    if kk != k || model.components().ncols() != p || sigma.len() != kk || mean.len() != p {
+        viols.push(Violation::new(
+            "pca.fit.wrong_shape",
+            format!(
+                "embedding size {} on {}x{} data (lambda_k/lambda_1 = {:e}): components {}x{}, {} singular values, mean of length {}",
+                k,
+                n,
+                p,
+                lam[k - 1] / l1,
+                kk,
+                model.components().ncols(),
+                sigma.len(),
+                mean.len()
+            ),
+            cj(),
+        ));
+        return st;
+    }
+    *fitted = Some((xa.clone(), model.mean().clone(), sigma.clone()));
+    let nm1 = n as f64 - 1.0;
+    let xmax = x.iter().flatten().fold(0.0f64, |s, v| s.max(v.abs()));
+    let sx = x.iter().flat_map(|r| r.iter().zip(&mu).map(|(a, m)| (a - m).abs())).fold(0.0f64, f64::max);
+
+    // ------------------------------------------------------------------ mean
+    for j in 0..p {
+        let colmax = x.iter().fold(0.0f64, |s, r| s.max(r[j].abs()));
+        if !((mean[j] - mu[j]).abs() <= 1e-12 * colmax) {
+            viols.push(Violation::new("pca.mean.wrong_value", format!("mean()[{}] = {:e}, column mean = {:e}", j, mean[j], mu[j]), cj()));
+            break;
+        }
+    }
+
+    // ------------------------------------------------------------------ singular values
+    if sigma.iter().any(|s| !s.is_finite() || *s <= 0.0) || sigma.windows(2).any(|w| w[0] < w[1]) {
+        viols.push(Violation::new("pca.singular_values.not_positive_non_increasing", format!("singular values {}", fmt_vec(&sigma)), cj()));
+    }
+    for i in 0..kk {
+        let ev = sigma[i] * sigma[i] / nm1;
+        let rel = (ev - lam[i]).abs() / l1;
+        st.max_var_rel = st.max_var_rel.max(rel);
+        if !(rel <= TOL) {
+            sv.push(Violation::new(
+                "pca.singular_values.wrong_value",
+                format!("singular value {}: sigma^2/(n-1) = {:e}, eigenvalue {} of the sample covariance = {:e} (lambda_1 = {:e})", i, ev, i, lam[i], l1),
+                cj(),
+            ));
+            break;
+        }
+    }
+
+    // ------------------------------------------------------------------ components: orthonormal directions
+    let rown: Vec<f64> = comp.iter().map(|r| norm(r)).collect();
+    if rown.iter().any(|v| !v.is_finite() || *v <= 0.0) {
+        viols.push(Violation::new("pca.components.degenerate_row", format!("row norms of components(): {}", fmt_vec(&rown)), cj()));
+        return st;
+    }
+    let dirs: Vec<Vec<f64>> = comp.iter().zip(&rown).map(|(r, nr)| r.iter().map(|v| v / nr).collect()).collect();
+    let mut orth_bad: Option<String> = None;
+    for i in 0..kk {
+        let want = if case.whiten { nm1.sqrt() / sigma[i] } else { 1.0 };
+        let e = (rown[i] / want - 1.0).abs();
+        st.max_orth = st.max_orth.max(e);
+        if !(e <= TOL) && orth_bad.is_none() {
+            orth_bad = Some(format!("row {} of components() has norm {:e}, expected {:e}{}", i, rown[i], want, if case.whiten { " (= sqrt(n-1)/sigma, whitening)" } else { "" }));
+        }
+        for j in i + 1..kk {
+            let d = rm::dot(&dirs[i], &dirs[j]).abs();
+            st.max_orth = st.max_orth.max(d);
+            if !(d <= TOL) && orth_bad.is_none() {
+                orth_bad = Some(format!("directions {} and {} of components() have cosine {:e}", i, j, d));
+            }
+        }
+    }
+    if let Some(w) = orth_bad {
+        viols.push(Violation::new(if case.whiten { "pca.components.whitened_rows_wrong_scale_or_not_orthogonal" } else { "pca.components.not_orthonormal" }, w, cj()));
+    }
+
+    // ------------------------------------------------------------------ alignment with the eigenvectors (per spectral block)
+    let mut a = 0;
+    while a < kk {
+        let mut b = a + 1;
+        while b < p && (lam[b - 1] - lam[b]) / l1 < GAP {
+            b += 1;
+        }
+        if b > kk {
+            // the block of (nearly) equal eigenvalues straddles the cut k: any basis of a k-dimensional
+            // part of it is a valid answer; only the variance statements below apply
+            st.straddling_blocks_skipped += 1;
+            break;
+        }
+        let mut gap_abs = f64::INFINITY;
+        if a > 0 {
+            gap_abs = gap_abs.min(lam[a - 1] - lam[a]);
+        }
+        if b < p {
+            gap_abs = gap_abs.min(lam[b - 1] - lam[b]);
+        }
+        let tol_solver = 10.0 * SOLVER_RES_TOL / (gap_abs * nm1);
+        let tol = TOL.max(tol_solver);
+        if tol > TOL {
+            st.widened += 1;
+            st.max_align_widened_tol = st.max_align_widened_tol.max(tol);
+        }
+        if gap_abs.is_finite() {
+            st.min_rel_gap_checked = st.min_rel_gap_checked.min(gap_abs / l1);
+        }
+        let pd = projector(&dirs[a..b], p);
+        let pv = projector(&vecs[a..b], p);
+        let err = frob_diff(&pd, &pv) / std::f64::consts::SQRT_2;
+        st.max_align = st.max_align.max(err);
+        if b - a == 1 {
+            st.single_axes_checked += 1;
+        } else {
+            st.degenerate_blocks_checked += 1;
+        }
+        if err > TOL && err <= tol {
+            st.needed_widening += 1;
+        }
+        if !(err <= tol) {
+            let (sig, what) = if b - a == 1 {
+                (
+                    "pca.components.not_aligned_with_eigenvector",
+                    format!(
+                        "component {} = {} is not (+/-) eigenvector {} = {} of the sample covariance: sin(angle) = {:e} > {:e} (eigenvalues {}, relative gap {:e})",
+                        a,
+                        fmt_vec(&dirs[a]),
+                        a,
+                        fmt_vec(&vecs[a]),
+                        err,
+                        tol,
+                        fmt_vec(&lam),
+                        gap_abs / l1
+                    ),
+                )
+            } else {
+                (
+                    "pca.components.degenerate_block_wrong_subspace",
+                    format!("components {}..{} do not span the eigenspace of the (nearly) equal eigenvalues {}: projector distance {:e} > {:e}", a, b, fmt_vec(&lam[a..b]), err, tol),
+                )
+            };
+            sv.push(Violation::new(sig, what, cj()));
+            break;
+        }
+        a = b;
+    }
+
+    // ------------------------------------------------------------------ retained variance (Ky Fan): no k-dimensional projection keeps more
+    {
+        let mut kept = 0.0;
+        for d in &dirs {
+            let cd = rm::matvec(&cov, d);
+            kept += rm::dot(d, &cd);
+        }
+        let best: f64 = lam[..kk].iter().sum();
+        let rel = (kept - best) / l1;
+        if rel < -TOL {
+            sv.push(Violation::new(
+                "pca.components.retained_variance_not_maximal",
+                format!("variance kept by the {} component directions = {:e}, sum of the {} largest eigenvalues = {:e}", kk, kept, kk, best),
+                cj(),
+            ));
+        } else if rel > TOL {
+            viols.push(Violation::new(
+                "pca.components.retained_variance_above_optimum",
+                format!("variance along the {} component directions = {:e} exceeds the sum of the {} largest eigenvalues = {:e} (directions not orthonormal)", kk, kept, kk, best),
+                cj(),
+            ));
+        }
+    }
+
+    // ------------------------------------------------------------------ predict / transform
+    let z = match guarded(|| model.predict(&ds)) {
+        Ok(z) => z,
+        Err(msg) => {
+            viols.push(Violation::new("pca.predict.panic", format!("predict on the training data panicked: {}", msg), cj()));
+            return st;
+        }
+    };
+    if z.shape() != [n, kk] {
+        viols.push(Violation::new("pca.predict.wrong_shape", format!("predict returned shape {:?}, expected [{}, {}]", z.shape(), n, kk), cj()));
+        return st;
+    }
+    match guarded(|| (model.predict(&xa), model.transform(ds.clone()).records)) {
+        Ok((z_arr, z_tr)) => {
+            if z_arr != z || z_tr != z {
+                viols.push(Violation::new("pca.transform.differs_from_predict", "predict(&dataset), predict(&array) and transform(dataset).records differ".to_string(), cj()));
+            }
+        }
+        Err(msg) => viols.push(Violation::new("pca.transform.panic", format!("predict(&array) / transform(dataset) panicked: {}", msg), cj())),
+    }
+    let zm = to_mat(&z);
+    // formula: (x - mean) . E^T, on the training rows and on two probe rows (the mean itself, mean + 1)
+    {
+        let probe = Array2::from_shape_fn((2, p), |(i, j)| mu[j] + i as f64);
+        let zp = guarded(|| model.predict(&probe)).ok();
+        let mut rows: Vec<(Vec<f64>, Vec<f64>, String)> = x.iter().zip(&zm).enumerate().map(|(i, (r, zr))| (r.clone(), zr.clone(), format!("training row {}", i))).collect();
+        match zp {
+            Some(zp) => {
+                for i in 0..2 {
+                    rows.push((probe.row(i).to_vec(), zp.row(i).to_vec(), format!("probe row mean + {}", i)));
+                }
+            }
+            None => viols.push(Violation::new("pca.predict.panic", "predict on two probe rows panicked".to_string(), cj())),
+        }
+        'outer: for (r, zr, name) in &rows {
+            for c in 0..kk {
+                let l1n: f64 = comp[c].iter().map(|v| v.abs()).sum();
+                let want: f64 = (0..p).map(|j| (r[j] - mu[j]) * comp[c][j]).sum();
+                let tol = (TOL_INTERNAL * sx.max(1.0e-300) + 1e-12 * xmax) * l1n;
+                if !((zr[c] - want).abs() <= tol) {
+                    viols.push(Violation::new(
+                        "pca.predict.not_centred_projection",
+                        format!("{}: coordinate {} = {:e}, (x - mean) . component = {:e}", name, c, zr[c], want),
+                        cj(),
+                    ));
+                    break 'outer;
+                }
+            }
+        }
+    }
+    // projected training data: centred, uncorrelated, variances = eigenvalues (= identity when whitened)
+    let zmean = rm::col_means(&zm);
+    for c in 0..kk {
+        let l1n: f64 = comp[c].iter().map(|v| v.abs()).sum();
+        if !(zmean[c].abs() <= (TOL_INTERNAL * sx + 1e-12 * xmax) * l1n) {
+            viols.push(Violation::new("pca.projection.not_centred", format!("projected training data: mean of coordinate {} = {:e}", c, zmean[c]), cj()));
+            break;
+        }
+    }
+    let zc = rm::covariance(&zm, 1.0);
+    st.projection_checked += 1;
+    if case.whiten {
+        let mut worst = 0.0f64;
+        let mut at = (0, 0);
+        for i in 0..kk {
+            for j in 0..kk {
+                let e = (zc[i][j] - if i == j { 1.0 } else { 0.0 }).abs();
+                if !(e <= worst) {
+                    worst = e;
+                    at = (i, j);
+                }
+            }
+        }
+        st.max_whiten = st.max_whiten.max(worst);
+        if !(worst <= TOL) {
+            sv.push(Violation::new(
+                "pca.whitening.covariance_not_identity",
+                format!("whitened projection of the training data: covariance[{}][{}] = {:e} (expected {})", at.0, at.1, zc[at.0][at.1], if at.0 == at.1 { 1 } else { 0 }),
+                cj(),
+            ));
+        }
+    } else {
+        'cov: for i in 0..kk {
+            for j in 0..kk {
+                let want = if i == j { lam[i] } else { 0.0 };
+                if !((zc[i][j] - want).abs() / l1 <= TOL) {
+                    let (sig, what) = if i == j {
+                        ("pca.projection.variance_not_eigenvalue", format!("sample variance of projected coordinate {} = {:e}, eigenvalue = {:e}", i, zc[i][i], lam[i]))
+                    } else {
+                        ("pca.projection.correlated_coordinates", format!("projected coordinates {} and {} have covariance {:e} (lambda_1 = {:e})", i, j, zc[i][j], l1))
+                    };
+                    sv.push(Violation::new(sig, what, cj()));
+                    break 'cov;
+                }
+            }
+        }
+    }
+
+    // ------------------------------------------------------------------ explained variance
+    // truth: sample variance of the (un-whitened) projection on direction i = sigma_i^2/(n-1) = eigenvalue i
+    match guarded(|| (model.explained_variance().to_vec(), model.explained_variance_ratio().to_vec())) {
+        Err(msg) => viols.push(Violation::new("pca.explained_variance.panic", format!("explained_variance / explained_variance_ratio panicked: {}", msg), cj())),
+        Ok((ev, ratio)) => {
+            let truth: Vec<f64> = dirs.iter().map(|d| rm::dot(d, &rm::matvec(&cov, d))).collect();
+            if ev.len() != kk || ratio.len() != kk {
+                viols.push(Violation::new("pca.explained_variance.wrong_length", format!("{} variances, {} ratios for {} components", ev.len(), ratio.len(), kk), cj()));
+            } else {
+                let ok = (0..kk).all(|i| ev[i].is_finite() && (ev[i] - truth[i]).abs() / l1 <= TOL && (ev[i] - sigma[i] * sigma[i] / nm1).abs() <= TOL_INTERNAL * l1);
+                if !ok {
+                    // closed form of the known defect: divisor (number of components - 1) instead of (n - 1)
+                    let wrong_div = kk as f64 - 1.0;
+                    let matches = (0..kk).all(|i| {
+                        let cf = sigma[i] * sigma[i] / wrong_div; // +inf for a single component
+                        if cf.is_infinite() {
+                            ev[i] == cf
+                        } else {
+                            (ev[i] - cf).abs() <= 1e-12 * cf.abs()
+                        }
+                    });
+                    let sig = if matches { "pca.explained_variance.divides_by_n_components_minus_1" } else { "pca.explained_variance.wrong_value" };
+                    viols.push(Violation::new(
+                        sig,
+                        format!(
+                            "explained_variance() = {} but the projected training data has sample variances {} (= sigma^2/(n-1), n = {}, eigenvalues {}){}",
+                            fmt_vec(&ev),
+                            fmt_vec(&truth),
+                            n,
+                            fmt_vec(&lam[..kk]),
+                            if matches { format!("; observed == sigma^2/({} components - 1)", kk) } else { String::new() }
+                        ),
+                        cj(),
+                    ));
+                }
+                // ratios: finite, non-negative, proportional to the true variances
+                let s2: f64 = sigma.iter().map(|s| s * s).sum();
+                if ratio.iter().any(|r| !r.is_finite() || *r < 0.0) {
+                    let sig = if kk == 1 && ratio[0].is_nan() { "pca.explained_variance_ratio.nan_for_single_component" } else { "pca.explained_variance_ratio.not_finite_non_negative" };
+                    viols.push(Violation::new(sig, format!("explained_variance_ratio() = {:?} for {} component(s) (singular values {})", ratio, kk, fmt_vec(&sigma)), cj()));
+                } else if (0..kk).any(|i| (ratio[i] * s2 - sigma[i] * sigma[i]).abs() > TOL_INTERNAL * s2) {
+                    viols.push(Violation::new(
+                        "pca.explained_variance_ratio.not_proportional",
+                        format!("explained_variance_ratio() = {} is not sigma_i^2 / sum sigma^2 (singular values {})", fmt_vec(&ratio), fmt_vec(&sigma)),
+                        cj(),
+                    ));
+                }
+            }
+        }
+    }
+
+    // ------------------------------------------------------------------ inverse_transform o transform = orthogonal projection about the mean
+    match guarded(|| model.inverse_transform(z.clone())) {
+        Err(msg) => viols.push(Violation::new("pca.inverse_transform.panic", format!("inverse_transform(transform(X)) panicked: {}", msg), cj())),
+        Ok(r) => {
+            if r.shape() != [n, p] {
+                viols.push(Violation::new("pca.inverse_transform.wrong_shape", format!("shape {:?}, expected [{}, {}]", r.shape(), n, p), cj()));
+            } else {
+                let proj = projector(&dirs, p);
+                let mut worst = 0.0f64;
+                let mut worst_cf = 0.0f64;
+                let mut cf_scale = 0.0f64;
+                let mut ex: Option<(usize, Vec<f64>, Vec<f64>)> = None;
+                for i in 0..n {
+                    let d: Vec<f64> = (0..p).map(|j| x[i][j] - mu[j]).collect();
+                    let want: Vec<f64> = (0..p).map(|j| mu[j] + (0..p).map(|l| d[l] * proj[l][j]).sum::<f64>()).collect();
+                    // what `z . E + mean` gives (E = components as stored, whitening scale included)
+                    let zi: Vec<f64> = comp.iter().map(|c| rm::dot(&d, c)).collect();
+                    let cf: Vec<f64> = (0..p).map(|j| mu[j] + (0..kk).map(|c| zi[c] * comp[c][j]).sum::<f64>()).collect();
+                    let e = (0..p).map(|j| (r[(i, j)] - want[j]).abs()).fold(0.0f64, f64::max);
+                    if e > worst || e.is_nan() {
+                        worst = e;
+                        ex = Some((i, want.clone(), r.row(i).to_vec()));
+                    }
+                    worst_cf = worst_cf.max((0..p).map(|j| (r[(i, j)] - cf[j]).abs()).fold(0.0f64, f64::max));
+                    cf_scale = cf_scale.max((0..p).map(|j| (cf[j] - mu[j]).abs()).fold(0.0f64, f64::max));
+                }
+                st.max_recon_rel = st.max_recon_rel.max(worst / sx);
+                if kk == p {
+                    st.full_rank_identity_checked += 1;
+                }
+                if !(worst <= TOL * sx + 1e-12 * xmax) {
+                    let (i, want, got) = ex.unwrap();
+                    let is_cf = case.whiten && worst_cf <= TOL_INTERNAL * cf_scale + 1e-12 * xmax;
+                    let sig = if is_cf { "pca.inverse_transform.whitened_model_applies_whitening_scale_again" } else { "pca.inverse_transform.not_orthogonal_projection" };
+                    viols.push(Violation::new(
+                        sig,
+                        format!(
+                            "inverse_transform(transform(X)) row {}: {} ; orthogonal projection of the row onto the component subspace about the mean{}: {} ; the row itself: {}{}",
+                            i,
+                            fmt_vec(&got),
+                            if kk == p { " (= the row itself, all components kept)" } else { "" },
+                            fmt_vec(&want),
+                            fmt_vec(&x[i]),
+                            if is_cf { " ; observed == mean + (x - mean) E^T E with the whitened (row-scaled by sqrt(n-1)/sigma) embedding E, i.e. every axis is scaled by (n-1)/sigma^2 instead of being restored" } else { "" }
+                        ),
+                        cj(),
+                    ));
+                }
+            }
+        }
+    }
+    st
+}
+
+fn replay_value(v: &Value) -> Vec<Violation> {
+    let c: Case = match serde_json::from_value::<Case>(v.clone()) {
+        Ok(mut c) => {
+            if c.x_bits.len() == c.x.len() && !c.x_bits.is_empty() {
+                c.x = c.x_bits.iter().map(|r| r.iter().map(|b| f64::from_bits(*b)).collect()).collect();
+            }
+            c
+        }
+        Err(e) => {
+            println!("MACHINERY-ERROR replay case does not parse: {}", e);
+            std::process::exit(2);
+        }
+    };
+    let mut out = Vec::new();
+    run_case(&c, &mut out);
+    out
+}
+
+// ---------------------------------------------------------------------- catalogue
+
+const M: i64 = 23;
+/// generator vectors of the rank-1 lattices ((i+1) * g_j mod 23) - 11
+const GENS: [[i64; 5]; 4] = [[1, 5, 7, 11, 13], [2, 3, 9, 14, 17], [4, 6, 10, 15, 19], [8, 12, 16, 18, 21]];
+const ANGLES: [[f64; 4]; 4] = [[0.5, 1.1, 0.3, 0.8], [0.2, 0.7, 1.3, 0.4], [1.0, 0.25, 0.6, 1.2], [0.75, 0.35, 0.9, 0.15]];
+const AXIS_SCALES: [f64; 5] = [1.0, 10.0, 100.0, 1.0, 10.0];
+const MIXED_SCALES: [f64; 5] = [1e-3, 1.0, 1e3, 1e-3, 1.0];
+const LOAD: [[f64; 5]; 2] = [[1.0, 2.0, -1.0, 3.0, -2.0], [2.0, -1.0, 1.0, 1.0, 3.0]];
+
+fn lattice(n: usize, p: usize, v: usize) -> Mat {
+    (0..n).map(|i| (0..p).map(|j| (((i as i64 + 1) * GENS[v][j]) % M - (M - 1) / 2) as f64).collect()).collect()
+}
+
+fn scale_cols(x: &Mat, s: &[f64], shift: usize) -> Mat {
+    x.iter().map(|r| r.iter().enumerate().map(|(j, v)| v * s[(j + shift) % s.len()]).collect()).collect()
+}
+
+fn rotate(x: &Mat, v: usize) -> Mat {
+    x.iter()
+        .map(|r| {
+            let mut r = r.clone();
+            for j in 0..r.len().saturating_sub(1) {
+                let (c, s) = (ANGLES[v][j].cos(), ANGLES[v][j].sin());
+                let (a, b) = (r[j], r[j + 1]);
+                r[j] = c * a - s * b;
+                r[j + 1] = s * a + c * b;
+            }
+            r
+        })
+        .collect()
+}
+
+fn add_cols(x: &Mat, off: &dyn Fn(usize) -> f64) -> Mat {
+    x.iter().map(|r| r.iter().enumerate().map(|(j, v)| v + off(j)).collect()).collect()
+}
+
+/// Every member of the catalogue for one (n, p, variant): (family, matrix).
+fn catalogue(n: usize, p: usize, v: usize) -> Vec<(String, Mat)> {
+    let mut out: Vec<(String, Mat)> = Vec::new();
+    let b = lattice(n, p, v);
+    out.push(("iso_lattice".into(), b.clone()));
+    if n >= 2 * p {
+        // cross-polytope +-2 e_j padded with copies of the centre: covariance exactly (8/(n-1)) I
+        let cross: Mat = (0..n)
+            .map(|i| (0..p).map(|j| if i / 2 == j && i < 2 * p { if i % 2 == 0 { 2.0 } else { -2.0 } } else { 0.0 }).collect())
+            .collect();
+        out.push(("iso_cross_exact".into(), cross.clone()));
+        let cj: Mat = cross.iter().enumerate().map(|(i, r)| r.iter().enumerate().map(|(j, x)| x + en::jitter(i + 7 * v, j)).collect()).collect();
+        out.push(("iso_cross_jitter".into(), cj));
+    }
+    let aniso = scale_cols(&b, &AXIS_SCALES, v);
+    out.push(("aniso_1_10_100".into(), aniso.clone()));
+    if p >= 2 {
+        out.push(("aniso_rotated".into(), rotate(&aniso, v)));
+        for r in 1..=2usize {
+            if r >= p {
+                continue;
+            }
+            // latent integer factors x integer loadings + constant jitter table
+            let m: Mat = (0..n)
+                .map(|i| {
+                    (0..p)
+                        .map(|j| {
+                            let mut s = en::jitter(i + 3 * v, j);
+                            for l in 0..r {
+                                let t = (((i as i64 + 1) * GENS[v][l + 1]) % M - (M - 1) / 2) as f64;
+                                s += t * LOAD[l][j];
+                            }
+                            s
+                        })
+                        .collect()
+                })
+                .collect();
+            out.push((format!("lowrank{}_jitter", r), m));
+        }
+    }
+    out.push(("offset_1e3".into(), add_cols(&b, &|_| 1000.0)));
+    if p >= 2 {
+        out.push(("offset_1e3_aniso_rotated".into(), add_cols(&rotate(&aniso, v), &|j| if j % 2 == 0 { 1000.0 } else { -1000.0 })));
+    }
+    out.push(("scale_1e-3".into(), scale_cols(&b, &[1e-3], 0)));
+    out.push(("scale_1e3".into(), scale_cols(&b, &[1e3], 0)));
+    if p >= 2 {
+        out.push(("scale_mixed_1e-3_1_1e3".into(), scale_cols(&b, &MIXED_SCALES, v)));
+    }
+    out
+}
+
+fn bits(x: &Mat) -> Vec<Vec<u64>> {
+    x.iter().map(|r| r.iter().map(|v| v.to_bits()).collect()).collect()
+}
+
+fn fmax(a: &AtomicU64, v: f64) {
+    // non-negative finite floats order like their bit patterns
+    if v.is_finite() && v >= 0.0 {
+        a.fetch_max(v.to_bits(), Ordering::Relaxed);
+    }
+}
+fn fget(a: &AtomicU64) -> f64 {
+    f64::from_bits(a.load(Ordering::Relaxed))
+}
+
+fn main() {
+    let ctx = Ctx::new("C18", Level::Exploration);
+    ctx.maybe_replay(&replay_value);
+    ctx.set_rule(
+        "cases = (catalogue matrix, embedding size k, whitening); catalogue = for every n in {6,9,12,20}, p in {1,2,3,5} (n > p) and every variant \
+         (1 quick / 4 thorough generator + angle + scale-permutation sets): rank-1 integer lattice ((i+1) g_j mod 23) - 11, exactly isotropic cross-polytope (+-2 e_j, n >= 2p) and its constant-jitter image, \
+         axis scales 1:10:100, the same rotated by fixed Givens angles, rank-1 / rank-2 integer factor models + constant jitter, offset 1e3, offset +-1e3 of the rotated one, all columns x 1e-3, all x 1e3, columns x (1e-3, 1, 1e3); \
+         k = 1..p with whitening off and on (full oracle), k = 0 and k = p+1 (must be Err), 0 x p data for every k (must be Err). Every member is run. \
+         evaluation = one fit with all assertions; non-trivial = a valid fit inside the domain predicate; out_of_domain = (matrix, k) whose k-th covariance eigenvalue is below 100 x the solver's documented null-space cut-off; \
+         distinct by construction (family, variant, n, p, k, whitening).",
+    );
+    ctx.assume("oracle = lvmc_core::refmath::jacobi_eig (plain f64 cyclic Jacobi) of the sample covariance with divisor n-1; its residual |C v - lambda v| <= 1e-12 lambda_1 is verified for every matrix (else MACHINERY-ERROR)");
+    ctx.assume("tolerance 1e-6 (LOBPCG accuracy; TruncatedSvd precision 1e-5 / residual 1e-10) for everything that depends on the solver: orthonormality, alignment sin(angle), variances relative to lambda_1, whitened covariance, reconstruction relative to max |x - mean|");
+    ctx.assume("alignment tolerance is max(1e-6, 10 x 1e-10 / (absolute gap of the Gram matrix X^T X to the neighbouring eigenvalue)), because the solver's stopping rule is an ABSOLUTE residual 1e-10; cases that needed the wider bound are counted (alignment_blocks_needing_absolute_solver_tolerance)");
+    ctx.assume("eigenvalues closer than 1e-3 lambda_1 form a degenerate block: the projector of the components is compared with the projector of the eigenvectors; a block straddling the cut k is not compared (any basis of a part of it is valid), the variance statements still apply");
+    ctx.assume("domain: lambda_k / lambda_1 >= 100 x (f64::EPSILON x 1e6), the null-space cut-off of linfa-linalg's TruncatedSvd; below it only 'does not panic' is demanded (counted as out_of_domain)");
+    ctx.assume("formulas recomputed from the model's own numbers (ratio = sigma^2 / sum sigma^2, predict = (x - mean) E^T, explained_variance = sigma^2/(n-1)) are compared at relative 1e-9; mean at 1e-12; predict(&dataset) == predict(&array) == transform(dataset).records bitwise");
+    ctx.assume("with whitening, 'components' are the stored rows (scaled by sqrt(n-1)/sigma); 'directions' are those rows normalised; the component subspace is their span");
+
+    // ---------------- enumerate ----------------
+    let ns = [6usize, 9, 12, 20];
+    let ps = [1usize, 2, 3, 5];
+    let variants = ctx.pick(1usize, 4usize);
+    let mut cases: Vec<Case> = Vec::new();
+    let mut n_matrices = 0u64;
+    let mut fam_counts: std::collections::BTreeMap<String, u64> = Default::default();
+    for v in 0..variants {
+        for &n in &ns {
+            for &p in &ps {
+                if n <= p {
+                    continue;
+                }
+                for (family, x) in catalogue(n, p, v) {
+                    n_matrices += 1;
+                    *fam_counts.entry(family.clone()).or_default() += 1;
+                    for whiten in [false, true] {
+                        for k in 0..=p + 1 {
+                            let kind = if k == 0 {
+                                "err_k0"
+                            } else if k == p + 1 {
+                                "err_kp1"
+                            } else {
+                                "fit"
+                            };
+                            cases.push(Case { kind: kind.into(), family: family.clone(), variant: v, n, p, x: x.clone(), x_bits: bits(&x), k, whiten });
+                        }
+                    }
+                }
+            }
+        }
+    }
+    for &p in &ps {
+        for whiten in [false, true] {
+            for k in 1..=p {
+                cases.push(Case { kind: "err_empty".into(), family: "empty".into(), variant: 0, n: 0, p, x: vec![], x_bits: vec![], k, whiten });
+            }
+        }
+    }
+    ctx.extra("catalogue_matrices", json!(n_matrices));
+    ctx.extra("catalogue_matrices_per_family", json!(fam_counts));
+    ctx.extra("cases_enumerated", json!(cases.len()));
+
+    // ---------------- sweep ----------------
+    let done = AtomicU64::new(0);
+    let c_single = AtomicU64::new(0);
+    let c_block = AtomicU64::new(0);
+    let c_straddle = AtomicU64::new(0);
+    let c_widened = AtomicU64::new(0);
+    let c_needed = AtomicU64::new(0);
+    let c_ident = AtomicU64::new(0);
+    let c_err = AtomicU64::new(0);
+    let c_fit = AtomicU64::new(0);
+    let c_whiten = AtomicU64::new(0);
+    let m_orth = AtomicU64::new(0);
+    let m_align = AtomicU64::new(0);
+    let m_wtol = AtomicU64::new(0);
+    let m_var = AtomicU64::new(0);
+    let m_whiten = AtomicU64::new(0);
+    let m_recon = AtomicU64::new(0);
+    let min_gap = std::sync::Mutex::new(f64::INFINITY);
+    // per (p, k): [fits with full oracle, fits with a violation other than the listed closed-form ones]
+    let by_pk: std::sync::Mutex<std::collections::BTreeMap<String, [u64; 2]>> = Default::default();
+    par_sweep(&ctx, "pca sweep", &cases, |c| {
+        let mut v = Vec::new();
+        let st = run_case(c, &mut v);
+        if st.out_of_domain {
+            ctx.out_of_domain();
+        }
+        ctx.eval(st.nontrivial);
+        if st.nontrivial {
+            let solver_viol = st.solver_violation;
+            let mut m = by_pk.lock().unwrap();
+            let e = m.entry(format!("p={} k={}", c.p, c.k)).or_insert([0, 0]);
+            e[0] += 1;
+            e[1] += solver_viol as u64;
+        }
+        ctx.violations(v);
+        done.fetch_add(1, Ordering::Relaxed);
+        c_single.fetch_add(st.single_axes_checked, Ordering::Relaxed);
+        c_block.fetch_add(st.degenerate_blocks_checked, Ordering::Relaxed);
+        c_straddle.fetch_add(st.straddling_blocks_skipped, Ordering::Relaxed);
+        c_widened.fetch_add(st.widened, Ordering::Relaxed);
+        c_needed.fetch_add(st.needed_widening, Ordering::Relaxed);
+        c_ident.fetch_add(st.full_rank_identity_checked, Ordering::Relaxed);
+        c_err.fetch_add(st.error_case as u64, Ordering::Relaxed);
+        c_fit.fetch_add(st.projection_checked, Ordering::Relaxed);
+        if st.projection_checked > 0 && c.whiten {
+            c_whiten.fetch_add(1, Ordering::Relaxed);
+        }
+        fmax(&m_orth, st.max_orth);
+        fmax(&m_whiten, st.max_whiten);
+        if !st.solver_violation {
+            fmax(&m_align, st.max_align);
+            fmax(&m_wtol, st.max_align_widened_tol);
+            fmax(&m_var, st.max_var_rel);
+            if !c.whiten {
+                fmax(&m_recon, st.max_recon_rel);
+            }
+        }
+        {
+            let mut g = min_gap.lock().unwrap();
+            if st.min_rel_gap_checked < *g {
+                *g = st.min_rel_gap_checked;
+            }
+        }
+        if c.kind == "fit" {
+            ctx.sample(|| json!({"family": c.family, "variant": c.variant, "n": c.n, "p": c.p, "k": c.k, "whiten": c.whiten, "first_rows": c.x.iter().take(3).collect::<Vec<_>>()}));
+        }
+    });
+    let done = done.load(Ordering::Relaxed);
+    ctx.extra("cases_completed", json!(done));
+    if done != cases.len() as u64 {
+        ctx.capped(&format!("{} of {} cases completed", done, cases.len()));
+    }
+    ctx.extra("error_cases_k0_kp1_empty", json!(c_err.load(Ordering::Relaxed)));
+    ctx.extra("fits_with_full_oracle", json!(c_fit.load(Ordering::Relaxed)));
+    ctx.extra("fits_with_full_oracle_whitened", json!(c_whiten.load(Ordering::Relaxed)));
+    ctx.extra("single_axes_compared_with_eigenvector", json!(c_single.load(Ordering::Relaxed)));
+    ctx.extra("degenerate_blocks_compared_by_projector", json!(c_block.load(Ordering::Relaxed)));
+    ctx.extra("blocks_straddling_the_cut_not_compared", json!(c_straddle.load(Ordering::Relaxed)));
+    ctx.extra("alignment_blocks_with_absolute_solver_tolerance_above_1e-6", json!(c_widened.load(Ordering::Relaxed)));
+    ctx.extra("alignment_blocks_needing_absolute_solver_tolerance", json!(c_needed.load(Ordering::Relaxed)));
+    ctx.extra("all_components_kept_identity_checked", json!(c_ident.load(Ordering::Relaxed)));
+    ctx.extra("per_p_k_[fits,fits_with_leading_axes_or_variance_violation]", json!(*by_pk.lock().unwrap()));
+    ctx.extra("smallest_relative_gap_of_a_compared_block", json!(*min_gap.lock().unwrap()));
+    ctx.extra(
+        "measured_maxima",
+        json!({
+            "orthonormality_error_all_fits": fget(&m_orth),
+            "whitened_covariance_error_all_whitened_fits": fget(&m_whiten),
+            "alignment_sin_angle_of_fits_without_axes_violation": fget(&m_align),
+            "largest_alignment_tolerance_granted": fget(&m_wtol),
+            "variance_error_rel_lambda1_of_fits_without_axes_violation": fget(&m_var),
+            "reconstruction_error_rel_spread_unwhitened_fits_without_axes_violation": fget(&m_recon),
+        }),
+    );
+    ctx.finish(&replay_value);
+}
